@@ -311,6 +311,35 @@ N8_TABLE = {
 }
 
 
+def rule_n10(repo, col):
+    """EvalNot.complete: \\+ Goal is the negation of the DISJUNCTION of all proofs of Goal: the node handed to the parent is add_not / negate applied to add_or(self.nodes); a
+    disjunction of negated proofs is `some proof fails`, a different formula as soon as the goal has two probabilistic proofs"""
+    c = repo.cls(EN, "EvalNot")
+    f = c.methods.get("complete")
+    if f is None:
+        raise AnalysisError("EvalNot.complete missing")
+    m = f.module
+    ors = [x for x in ast.walk(f.node) if isinstance(x, ast.Call) and isinstance(x.func, ast.Attribute) and x.func.attr == "add_or" and x.args]
+    if not ors:
+        raise AnalysisError("EvalNot.complete: disjunction of the proofs not found")
+    parents = m.parents()
+    n = 0
+    for o in ors:
+        n += 1
+        whole = norm(o.args[0]) in ("self.nodes", "list(self.nodes)", "tuple(self.nodes)")
+        par = parents.get(o)
+        negated = isinstance(par, ast.Call) and isinstance(par.func, ast.Attribute) and par.func.attr in ("add_not", "negate") and par.args and par.args[0] is o
+        if not negated and isinstance(par, ast.Assign) and isinstance(par.targets[0], ast.Name):
+            nm = par.targets[0].id
+            negated = any(isinstance(x, ast.Call) and isinstance(x.func, ast.Attribute) and x.func.attr in ("add_not", "negate") and x.args and norm(x.args[0]) == nm for x in ast.walk(f.node)) \
+                or any(isinstance(x, ast.UnaryOp) and isinstance(x.op, ast.USub) and norm(x.operand) == nm for x in ast.walk(f.node))
+        col.decide("N10", m, o, whole and negated, "the negation node is not(or(all proofs))",
+                   "EvalNot.complete builds %s%s: \\+ Goal must be the negation of the disjunction over ALL proof nodes of Goal (add_not(add_or(self.nodes))); or(not p1, not p2) is true "
+                   "as soon as one proof fails, so a goal with two probabilistic answers is under-negated (\\+ (X = I, r(I, ..)) in library(cut) lets a later rule fire although an earlier one "
+                   "applies)" % (norm(o)[:70], "" if negated else " without negating it"), construct="EvalNot.complete: shape of the negation", function="EvalNot.complete")
+    col.floor("N10.negations", n, 1)
+
+
 def run(repo, col):
     col.rule("N1", "EvalNot.createCycle always raises NegativeCycle")
     col.rule("N2", "checkCycle raises on an EvalNot between child and parent")
@@ -327,3 +356,5 @@ def run(repo, col):
     rule_n8(repo, col)
     col.rule("N9", "find_cycle returns only nodes of the cycle")
     rule_n9(repo, col)
+    col.rule("N10", "negation = not(or(all proofs))")
+    rule_n10(repo, col)
